@@ -48,6 +48,8 @@ THEOREMS = [
     "OllamaVerif.C04.history_preserves_Inv_fixed",
     "OllamaVerif.C04.prune_exact_fixed",
     "OllamaVerif.C04.prune_skipped",
+    "OllamaVerif.C04.prune_no_empty_dir",
+    "OllamaVerif.C04.pruneStartup_no_empty_dir",
     "OllamaVerif.C04.prune_classes_witness",
     "OllamaVerif.C04.pull_witness",
     "OllamaVerif.C04.no_new_case_twins_fixed",
